@@ -11,7 +11,7 @@ import (
 
 func init() {
 	ops["Select"] = opSelect
-	for _, op := range []string{"CsNew", "CsPush", "CsPop", "CsShift", "CsObserve"} {
+	for _, op := range []string{"CsNew", "CsPush", "CsPop", "CsShift", "CsObserve", "CsFinal"} {
 		ops[op] = opCoinSet
 	}
 	families["C19"] = runC19
@@ -148,7 +148,13 @@ func opCoinSet(h *HState, a Event) Event {
 				e["ret"] = c.(*tCoin).id
 			}
 		}
-		e["post"] = csPost(h.Obj["cs"].(*coinset.CoinSet))
+		if gName(a, "op") == "CsFinal" { // final observation of a history (DeferredOp)
+			e["all"] = csPost(h.Obj["cs"].(*coinset.CoinSet))
+			return
+		}
+		if !gBool(a, "noobs") { // the quiet second execution does not read the totals between the calls
+			e["post"] = csPost(h.Obj["cs"].(*coinset.CoinSet))
+		}
 	})
 	return panicField(e, p, msg)
 }
@@ -163,6 +169,7 @@ func coinOfTx(id, txk, index int, v, cf int64) map[string]interface{} {
 }
 
 func runC19(c *Ctx) {
+	c.DeferredOp = "CsFinal"
 	c.Conc = true // stateless calls are also replayed from several goroutines at once
 	r := c.Rng
 	selectors := []string{"MinIndex", "MinNumber", "MaxValueAge", "MinPriority"}
